@@ -26,6 +26,10 @@ func (ex *Exec) intrinsic(fr *Frame, st *State, key string, args []Val, sig *typ
 		}
 		return nil
 	}
+	// pure string functions on constant arguments: evaluated with the real standard library
+	if r, ok := ex.foldStringFunc(key, args); ok {
+		return one(r)
+	}
 	switch key {
 	case "errors.Is":
 		a, b := errArg(0), errArg(1)
@@ -131,6 +135,24 @@ func (ex *Exec) intrinsic(fr *Frame, st *State, key string, args []Val, sig *typ
 			}
 		}
 		return one(ex.freshTerm("sprintf", SString, false))
+	case "math.Pow":
+		// math.Pow(2, float64(n)) for an integer n: the exact power of two (IEEE: exponent
+		// field n+1023, zero mantissa) for 0 <= n <= 1023, +Inf from 1024 on. Assumption
+		// about the dependency, listed in the evidence; other argument shapes fall through
+		// to the extern contract in specs/num.spec.
+		x, okx := args[0].(*Term)
+		y, oky := args[1].(*Term)
+		if okx && oky && x.S == FPConstFromBits(0x4000000000000000, SF64).S {
+			if n, ok := ex.intToFloat[y.S]; ok && bvBits(n.Sort) == 64 && n.Signed {
+				ex.usedExtern["math.Pow(2, float64(n)) is the exact power of two for 0<=n<=1023 and +Inf for n>=1024 (intrinsic)"] = true
+				r := ex.freshTerm("pow2", SF64, false)
+				inr := And(app(SBool, "bvsge", n, BVInt(0, 64, true)), app(SBool, "bvsle", n, BVInt(1023, 64, true)))
+				exact := &Term{S: fmt.Sprintf("(fp #b0 ((_ extract 10 0) (bvadd %s (_ bv1023 64))) #x0000000000000)", n.S), Sort: SF64}
+				st.Assume(Implies(inr, Eq(r, exact)))
+				st.Assume(Implies(app(SBool, "bvsgt", n, BVInt(1023, 64, true)), Eq(r, &Term{S: "(_ +oo 11 53)", Sort: SF64})))
+				return one(r)
+			}
+		}
 	case "strings.Contains":
 		a, b := strArg(args, 0), strArg(args, 1)
 		if a != nil && b != nil {
@@ -146,8 +168,23 @@ func (ex *Exec) intrinsic(fr *Frame, st *State, key string, args []Val, sig *typ
 		if a != nil && b != nil {
 			return one(app(SBool, "str.suffixof", b, a))
 		}
+	case "strings.ToLower", "strings.TrimSpace", "strings.ToUpper":
+		if a := strArg(args, 0); a != nil {
+			name := "str_" + strings.ToLower(strings.TrimPrefix(key, "strings."))
+			ex.declareUF(name, []string{SString}, SString)
+			return one(app(SString, name, a))
+		}
+	case "os.IsTimeout", "os.IsExist", "os.IsNotExist", "os.IsPermission":
+		if e := errArg(0); e != nil {
+			name := "os_" + strings.TrimPrefix(key, "os.")
+			ex.declareUF(name, []string{SErr}, SBool)
+			return one(app(SBool, name, e))
+		}
 	case "(error).Error":
 		if e := errArg(0); e != nil {
+			if txt, ok := ex.sentinelText[e.S]; ok {
+				return one(StrConst(txt))
+			}
 			ex.declareUF("errtext", []string{SErr}, SString)
 			return one(app(SString, "errtext", e))
 		}
@@ -256,4 +293,68 @@ func (ex *Exec) sprintfTerm(st *State, format *Term, elems []Val) *Term {
 		return parts[0]
 	}
 	return app(SString, "str.++", parts...)
+}
+
+// constStr decodes an SMT string literal.
+func constStr(t *Term) (string, bool) {
+	if t == nil || t.Sort != SString || !strings.HasPrefix(t.S, "\"") {
+		return "", false
+	}
+	s := t.S[1 : len(t.S)-1]
+	s = strings.ReplaceAll(s, "\"\"", "\"")
+	var b strings.Builder
+	for i := 0; i < len(s); i++ {
+		if strings.HasPrefix(s[i:], "\\u{") {
+			j := strings.Index(s[i:], "}")
+			var v int
+			fmt.Sscanf(s[i+3:i+j], "%x", &v)
+			b.WriteByte(byte(v))
+			i += j
+			continue
+		}
+		b.WriteByte(s[i])
+	}
+	return b.String(), true
+}
+
+func (ex *Exec) foldStringFunc(key string, args []Val) (Val, bool) {
+	var cs []string
+	for _, a := range args {
+		t, ok := a.(*Term)
+		if !ok {
+			return nil, false
+		}
+		c, ok := constStr(t)
+		if !ok {
+			return nil, false
+		}
+		cs = append(cs, c)
+	}
+	b := func(v bool) (Val, bool) {
+		if v {
+			return TTrue, true
+		}
+		return TFalse, true
+	}
+	switch {
+	case key == "strings.TrimSpace" && len(cs) == 1:
+		return StrConst(strings.TrimSpace(cs[0])), true
+	case key == "strings.ToLower" && len(cs) == 1:
+		return StrConst(strings.ToLower(cs[0])), true
+	case key == "strings.ToUpper" && len(cs) == 1:
+		return StrConst(strings.ToUpper(cs[0])), true
+	case key == "strings.Contains" && len(cs) == 2:
+		return b(strings.Contains(cs[0], cs[1]))
+	case key == "strings.HasPrefix" && len(cs) == 2:
+		return b(strings.HasPrefix(cs[0], cs[1]))
+	case key == "strings.HasSuffix" && len(cs) == 2:
+		return b(strings.HasSuffix(cs[0], cs[1]))
+	case key == "strings.EqualFold" && len(cs) == 2:
+		return b(strings.EqualFold(cs[0], cs[1]))
+	case key == "strings.TrimSuffix" && len(cs) == 2:
+		return StrConst(strings.TrimSuffix(cs[0], cs[1])), true
+	case key == "strings.TrimPrefix" && len(cs) == 2:
+		return StrConst(strings.TrimPrefix(cs[0], cs[1])), true
+	}
+	return nil, false
 }
